@@ -1542,7 +1542,8 @@ class VacancyMediated(object):
         G1 = G[om2_sv_indices, :][:, om2_sv_indices]
         om2_slice = om2[om2_sv_indices, :][:, om2_sv_indices]
         gdom2 = np.dot(G1, om2_slice)
-        if np.any(np.abs(gdom2) > large_om2):
+        use_large_om2 = np.any(np.abs(gdom2) > large_om2)
+        if use_large_om2:
             nom2 = len(om2_sv_indices)
             om2eig, om2vec = np.linalg.eigh(om2_slice)
             G1rot = np.dot(om2vec.T, np.dot(G1, om2vec))  # rotated matrix
@@ -1583,7 +1584,19 @@ class VacancyMediated(object):
         biasVvec += biasVvec_om2
 
         # 6b. GF pieces:
-        etaVvec, etaSvec = np.dot(G, biasVvec), np.dot(G, biasSvec)
+        if not use_large_om2:
+            etaVvec, etaSvec = np.dot(G, biasVvec), np.dot(G, biasSvec)
+        else:
+            # The omega2 block of G is O(1/omega2^2) on the non-null space of omega2 but O(1) on its null space,
+            # while the bias vectors are O(omega2) and orthogonal to that null space. Contract that block in the
+            # eigenbasis of omega2, where O(omega2) terms do not have to cancel (they fail to cancel to working
+            # precision when exchanges connect different Wyckoff sets, so that the null vectors mix vector stars).
+            Gouter = G.copy()
+            for i in om2_sv_indices:
+                Gouter[i, om2_sv_indices] = 0
+            etaVvec, etaSvec = np.dot(Gouter, biasVvec), np.dot(Gouter, biasSvec)
+            for eta, bias in ((etaVvec, biasVvec), (etaSvec, biasSvec)):
+                eta[om2_sv_indices] += np.dot(om2vec, np.dot(G2rot, np.dot(om2vec.T, bias[om2_sv_indices])))
         outer_etaVvec, outer_etaSvec = np.dot(self.vkinetic.outer, etaVvec), np.dot(self.vkinetic.outer, etaSvec)
 
         L1ss = np.dot(outer_etaSvec, biasSvec) / self.N
